@@ -1,5 +1,5 @@
-(* C11, stream "cpu" — cpuEvict end to end (CPUAllocatableEvict, CPUEvict; BECPUEvict's
-   satisfaction target is not modelled and is kept disabled) and its three victim-list builders. *)
+(* C11, stream "cpu" — cpuEvict end to end (BECPUEvict, CPUAllocatableEvict, CPUEvict) and its
+   three victim-list builders. *)
 From Coq Require Import List ZArith Bool.
 From Verif Require Import Lib.Wire C11.Model C11.Spec C11.ModelEvict C11.SpecEvict C11.WireEvict.
 Import ListNotations.
@@ -10,7 +10,7 @@ Definition model_eobs (i : einput) : eobs :=
   mkEobs (map p_id (build_be_cpu 0 pods))
          (if c_aprioF c then map p_id (build_prio 1 (c_aprio c) req pods) else [])
          (if c_evthrF c then map p_id (build_prio 2 (c_evthr c) p_used pods) else [])
-         (model_wevs i (cpu_ptasks c pods)).
+         (model_wevs i (cpu_ptasks c (ei_be i) pods)).
 
 Definition run_case (inp : list Z) : list Z := enc_eobs (model_eobs (dec_einput inp)).
 
@@ -26,7 +26,7 @@ Definition prop_case (inp obs : list Z) : Z :=
   let o := dec_eobs obs in
   if negb (eq_listZ (enc_eobs o) obs) then 9
   else if negb (lists_code i o =? 0) then lists_code i o
-  else strategy_code (cpu_ptasks (ei_cfg i) (ei_pods i)) (eo_wevs o).
+  else strategy_code (cpu_ptasks (ei_cfg i) (ei_be i) (ei_pods i)) (eo_wevs o).
 
 Definition nontrivial_case (inp : list Z) : bool :=
   (0 <? Z.of_nat (length (eo_wevs (model_eobs (dec_einput inp))))).
